@@ -10,6 +10,10 @@ JOBS = {
     "C01": [
         {"cmd": "c01-codec", "race": False, "batches": {"quick": 8, "thorough": 16}, "timeout": {"quick": 600, "thorough": 2400}},
     ],
+    "C03": [
+        {"cmd": "c03-engine", "race": True, "batches": {"quick": 2, "thorough": 6}, "timeout": {"quick": 600, "thorough": 2400}},
+        {"cmd": "c03-steer", "race": True, "batches": {"quick": 8, "thorough": 16}, "timeout": {"quick": 900, "thorough": 3600}},
+    ],
     "C05": [
         {"cmd": "c05-policies", "race": False, "batches": {"quick": 8, "thorough": 16}, "timeout": {"quick": 300, "thorough": 1500}},
         {"cmd": "c05-concurrent", "race": True, "timeout": {"quick": 300, "thorough": 1500},
